@@ -32,7 +32,7 @@ REQUIRED_CLAUSES = ["a.fk_value", "b.eepos", "c.base", "d.joint_frames", "d.tool
 def plan(tier, seed):
     if tier == "quick":
         return [{"n": 120, "timeout_s": 1800} for _ in range(16)]
-    return [{"n": 2500, "timeout_s": 14400} for _ in range(16)] + [{"mode": "suite", "n": 0, "timeout_s": 3600}]
+    return [{"n": 10000, "timeout_s": 14400} for _ in range(16)] + [{"mode": "suite", "n": 0, "timeout_s": 3600}]
 
 
 def gen_history(rng, model):
